@@ -428,6 +428,28 @@ func main() {
 					skel.WriteString("]\n")
 					fmt.Fprintf(&skel, "def %s_lits : List String := %s\n\n", id, leanStrList(lits))
 				case *ast.GenDecl:
+					if x.Tok == token.TYPE {
+						for _, sp := range x.Specs {
+							ts, ok := sp.(*ast.TypeSpec)
+							if !ok {
+								continue
+							}
+							if st, ok := ts.Type.(*ast.StructType); ok {
+								fields := []string{}
+								for _, f := range st.Fields.List {
+									typ := pr(f.Type)
+									if len(f.Names) == 0 {
+										fields = append(fields, typ+" "+typ)
+									}
+									for _, n := range f.Names {
+										fields = append(fields, n.Name+" "+typ)
+									}
+								}
+								fmt.Fprintf(&consts, "def %s_fields : List String := %s\n", ts.Name.Name, leanStrList(fields))
+							}
+						}
+						continue
+					}
 					if x.Tok != token.CONST && x.Tok != token.VAR {
 						continue
 					}
